@@ -1,9 +1,9 @@
 package rules
 
 import (
-	"go/types"
 	"fmt"
 	"go/token"
+	"go/types"
 	"sort"
 	"strings"
 
@@ -115,6 +115,12 @@ func runEvent(in ssa.Instruction, st *an.State) string {
 		return "gate"
 	}
 	switch x := in.(type) {
+	case *ssa.MapUpdate:
+		// the cleanup registry kept as a plain map (under a mutex) instead of a sync.Map
+		if an.FieldProv(x.Map) == "TaskRunner.cleanupList" {
+			return "cleanup.register"
+		}
+		return ""
 	case *ssa.Store:
 		if fa, ok := x.Addr.(*ssa.FieldAddr); ok && an.TypeIs(fa.X.Type(), "pkg/task", "Task") {
 			switch an.AccessPath(fa).LastField() {
